@@ -322,8 +322,54 @@ def run_one(prop, name, path, old, new, runs):
         shutil.rmtree(d, ignore_errors=True)
 
 
+def run_seeded(only=None, runs=None):
+    """Re-run every recorded seeded change (seeded/<id>/patch.diff) against
+    the check of its property, on a scratch copy."""
+    import glob
+    rows = []
+    for meta_p in sorted(glob.glob(os.path.join(VERIF, 'seeded', '*',
+                                                'meta.json'))):
+        meta = json.load(open(meta_p))
+        sid, prop = meta['id'], meta['property']
+        if only and only not in (sid, prop):
+            continue
+        d = scratch_copy()
+        try:
+            patch = os.path.join(os.path.dirname(meta_p), 'patch.diff')
+            r = subprocess.run(['patch', '-p1', '-s', '-i', patch], cwd=d,
+                               capture_output=True, text=True)
+            if r.returncode != 0:
+                rows.append((sid, 'STALE', r.stdout[-200:]))
+                print('%-6s STALE %s' % (sid, r.stdout[-200:]), flush=True)
+                continue
+            env = dict(os.environ, VERIF_REPO=d,
+                       VERIF_REPLAY_DIR=os.path.join(d, 'replays'))
+            cmd = [os.path.join(VERIF, 'check'), prop, '--no-evidence']
+            if runs:
+                cmd += ['--runs', str(runs)]
+            t = time.time()
+            r = subprocess.run(cmd, capture_output=True, text=True, env=env,
+                               timeout=3600)
+            sigs = sorted(set(
+                ln.split('signature=')[1].split()[0]
+                for ln in r.stdout.splitlines()
+                if ln.startswith('VIOLATION') and 'signature=' in ln))
+            st = 'CAUGHT' if r.returncode == 1 and sigs else 'MISSED'
+            rows.append((sid, st, sigs))
+            print('%-6s %-7s %6.1fs %s' % (sid, st, time.time() - t,
+                                           ','.join(sigs)[:150]), flush=True)
+        finally:
+            shutil.rmtree(d, ignore_errors=True)
+    missed = [r for r in rows if r[1] != 'CAUGHT']
+    print('%d seeded changes, %d caught' % (len(rows),
+                                            len(rows) - len(missed)))
+    return 1 if missed else 0
+
+
 def main():
     args = sys.argv[1:]
+    if args and args[0] == '--seeded':
+        return run_seeded(args[1] if len(args) > 1 else None)
     runs = None
     only = None
     props = None
